@@ -175,7 +175,9 @@ impl<'t, 'd> Gen<'t, 'd> {
             if self.t.chance(1, 5) {
                 v.push(String::new());
             } else {
-                v.push(format!(" pv-doc-{}", self.doc_counter));
+                // now and then with characters that need care in a string literal / comment
+                let extra = if self.t.chance(1, 6) { *self.t.pick(&[" \"quoted\"", " back\\slash", " */ end", " {braces}", " 'tick", " tab\there", " #[attr]", " üñí"]) } else { "" };
+                v.push(format!(" pv-doc-{}{}", self.doc_counter, extra));
             }
         }
         v
@@ -184,7 +186,8 @@ impl<'t, 'd> Gen<'t, 'd> {
     /// A function name: usually fresh, sometimes from a small shared pool (never one of `avoid`).
     fn fn_name(&mut self, prefix: &str, avoid: &[String]) -> String {
         if self.cfg.shared_names && self.t.chance(1, 5) {
-            let cand = format!("shared{}", self.t.below(4));
+            // mostly a shared function name, sometimes the name of a (possible) field
+            let cand = if self.t.chance(1, 5) { format!("f{}", self.t.below(3)) } else { format!("shared{}", self.t.below(4)) };
             if !avoid.contains(&cand) {
                 return cand;
             }
@@ -594,7 +597,14 @@ impl<'t, 'd> Gen<'t, 'd> {
             let aligned = (cursor + eff_align - 1) / eff_align * eff_align;
             // the first base that carries the vftable pointer must sit at offset 0
             let force_zero = is_base && fi == 0 && first_base_has_vft;
-            let gap = if force_zero || !self.t.chance(1, 4) { 0 } else { eff_align * (1 + self.t.small(self.cfg.max_gap) / eff_align.max(1)).min(self.cfg.max_gap) };
+            let gap = if force_zero || !self.t.chance(1, 4) {
+                0
+            } else if self.cfg.max_gap >= 64 && self.t.chance(1, 12) {
+                // rare large, round offsets
+                eff_align.max(1) * *self.t.pick(&[256u64, 0x1000, 0x10000, 0xFFF0, 0x100000]) / eff_align.max(1) * eff_align.max(1)
+            } else {
+                eff_align * (1 + self.t.small(self.cfg.max_gap) / eff_align.max(1)).min(self.cfg.max_gap)
+            };
             let offset = aligned + gap;
             let mut addr = None;
             if offset != cursor {
